@@ -509,13 +509,29 @@ class DiscriminatedUnionUnpackerBuilder(AbstractUnpackerBuilder):
             )
             with lines.indent():
                 spec.builder.ensure_object_imported(spec.builder.__class__)
-                lines.append(
-                    "CodeBuilder(variant, "
-                    "dialect=_dialect, "
+                builder_args = (
                     f"format_name={repr(spec.builder.format_name)}, "
-                    "default_dialect=_default_dialect)"
-                    ".add_unpack_method()"
+                    "default_dialect=_default_dialect"
                 )
+                lines.append(
+                    "variant_builder = CodeBuilder(variant, "
+                    f"dialect=_dialect, {builder_args})"
+                )
+                with lines.indent("if _dialect is not None:"):
+                    # the dialect specific method is only reachable through
+                    # the plain one, which the variant doesn't have yet
+                    lines.append(
+                        f"CodeBuilder(variant, {builder_args})"
+                        ".add_unpack_method()"
+                    )
+                # a class without dialect support has no per-dialect cache
+                # and is always called through its plain method
+                with lines.indent(
+                    "if _dialect is None or "
+                    "variant_builder.is_code_generation_option_enabled("
+                    f"{ADD_DIALECT_SUPPORT!r}):"
+                ):
+                    lines.append("variant_builder.add_unpack_method()")
                 if not self.discriminator.field:
                     with lines.indent("try:"):
                         lines.append(f"return variant.{variant_method_call}")
